@@ -80,6 +80,7 @@ _ALL = {
         ["bounded.run_C09"],
         "other",
         "Proof core: phase_sync preserves the val view of every sector, empties the table, is idempotent; every sign-introducing operation acts on the val view by a key-determined factor (hence commutes with sync). Bounded: op(x) == op(x.phase_sync()) for every public operation over lazily signed arrays.",
+        frames=['typestate'],
     ),
     "C10": _p(
         ["bounded.run_C10"],
@@ -106,12 +107,14 @@ _ALL = {
         ["bounded.run_C14"],
         "other",
         "Proof core: frame clauses of the contracts under verification - every out-of-place sign-table operation, copy/copy_with and the blockwise binary operation leave every field of every operand exactly as it was and return objects whose dicts are not shared; in-place variants return the receiver. Bounded: operand snapshots around every public call and call pair; inplace == out-of-place.",
+        frames=['ownership', 'immutable'],
     ),
     "C15": _p(
         ["bounded.run_C15"],
         "other",
         "Proof core: default_tensordot_mode restores the previous mode on normal and exceptional exit; cache key coverage obligations. Bounded: cold/warm/evicting histories over near-identical arrays. The thread clause is outside this technique family: only a bounded stress run.",
         extra=["schedules (threads) are NOT covered by any contract: bounded stress run only"],
+        frames=['key_covers', 'immutable'],
     ),
     "C16": _p(
         ["bounded.run_C16"],
@@ -137,6 +140,7 @@ _ALL = {
         ["bounded.run_C20"],
         "other",
         "Bounded tier decides (dtype audit of every result block for four dtypes with sparsity forcing zero-block creation); dtype-flow obligations at the zero-creation sites.",
+        frames=['dtype_flow'],
     ),
 }
 
